@@ -3,6 +3,8 @@
 // Contracts for package taskpool, read by /verif/govc (comment-only; compiled by nobody).
 package taskpool
 
+//@ uses mempool.unborn
+
 // ---- counter accounting (C19). The shared counter equals (live workers) + (units owed by threads). A thread "owes" a
 // unit from the moment it adds 1 to the counter until it subtracts it again or hands it to a worker it starts (the
 // worker gives it back when it exits). Capacity is recovered iff every function returns the units it took.
@@ -80,3 +82,43 @@ package taskpool
 //@ func (*TaskPool).Call
 //@   props C19
 //@   assigns everything
+
+// ---- the IO task pool (C02): the buffer handed to a read task must have room. A read into an empty buffer returns 0
+// without error, so a task given one never delivers anything. The pool's buffers are made with the size given to NewIO;
+// a task may shorten the buffer it was given to what it read, never to nothing, so what goes back into the pool has room
+// too (poolCap == -2, see the sync.Pool contract in mempool/contracts_verif.go). That New's results belong to the pool's
+// elements is sync.Pool's behaviour (trusted).
+//@ func NewIO
+//@   props C02
+//@   requires room: bufSize > 0   // prop C02
+//@   requires queueSize >= 0
+//@   ensures wired: result != nil && poolCap[result.pool] == -2   // prop C02
+//@   assigns everything
+//@   at return ghost { poolCap[result.pool] = -2 }
+//@ func NewIO$1
+//@   props C02
+//@   safety make
+//@   requires thread: bufSize >= 0
+//@   ensures made: len(*as(result, "*[]byte")) == bufSize   // prop C02
+//@   assigns allocates
+//@ paramfunc (*IOTaskPool).Go$1.f
+//@   params pbuf
+//@   note a read task (AsyncRead's closures, whose contracts prove the same clause): it may shorten the buffer to what it read, never to nothing
+//@   havoc
+//@   ensures room: len(*pbuf) >= 1 && poolCap == old(poolCap) && liveP == old(liveP)
+//@ paramfunc (*IOTaskPool).Call$1.f
+//@   params pbuf
+//@   havoc
+//@   ensures room: len(*pbuf) >= 1 && poolCap == old(poolCap) && liveP == old(liveP)
+//@ func (*IOTaskPool).Go$1
+//@   props C02
+//@   safety nil assert
+//@   requires thread: tp != nil && poolCap[tp.pool] == -2
+//@   assigns everything
+//@   at before:f#1 assert room: pbuf != nil && len(*pbuf) >= 1   // prop C02
+//@ func (*IOTaskPool).Call$1
+//@   props C02
+//@   safety nil assert
+//@   requires thread: tp != nil && poolCap[tp.pool] == -2
+//@   assigns everything
+//@   at before:f#1 assert room: pbuf != nil && len(*pbuf) >= 1   // prop C02
